@@ -138,6 +138,11 @@ static void Tuple_Assign(var self, var obj) {
   
   } else {
     
+    if (not implements_method(obj, Iter, iter_init)) {
+      throw(ClassError, "Cannot assign to Tuple from '%s', it is not iterable", type_of(obj));
+      return;
+    }
+    
     if (Tuple_Len(self) > 0) { Tuple_Resize(self, 0); }
     
     foreach (item in obj) {
